@@ -1,12 +1,177 @@
 /- Drv/C16.lean — driver handler for property C16 (line protocol; core-only imports). -/
 import FunsorVerif.Core.Sexp
-import FunsorVerif.Core.XR
+import FunsorVerif.Model.C16
+import FunsorVerif.Gen.C16Table
+import FunsorVerif.Gen.C16Reg
 namespace FV.Drv.C16
-open FV
+open FV FV.C16
 
-/-- `args` are the top-level S-expressions following the property tag on the request line. -/
+/-
+  wire syntax
+    ty   ::= any | tb | fb | (c K) | (t ty*) | (tv ty) | (f ty) | (u ty*) | (g K ty*)
+    alt  ::= (w ty) | (n ty)
+    slot ::= alt | (v alt*)
+    sig  ::= (slot*)
+    val  ::= (o K) | (term K val*) | (tuple val*) | (fset val*)
+-/
+mutual
+def parseTy : Sexp → Option Ty
+  | .atom "any" => some .any
+  | .atom "tb" => some .tupB
+  | .atom "fb" => some .fsB
+  | .list [.atom "c", k] => k.asNat?.map Ty.cls
+  | .list (.atom "t" :: xs) => (parseTys xs).map Ty.tup
+  | .list [.atom "tv", x] => (parseTy x).map Ty.tupV
+  | .list [.atom "f", x] => (parseTy x).map Ty.fs
+  | .list (.atom "u" :: xs) => (parseTys xs).map Ty.union
+  | .list (.atom "g" :: k :: xs) =>
+    match k.asNat?, parseTys xs with
+    | some k, some xs => some (.fn k xs)
+    | _, _ => none
+  | _ => none
+def parseTys : List Sexp → Option (List Ty)
+  | [] => some []
+  | x :: xs =>
+    match parseTy x, parseTys xs with
+    | some t, some ts => some (t :: ts)
+    | _, _ => none
+end
+
+def parseAlt : Sexp → Option Alt
+  | .list [.atom "w", t] => (parseTy t).map (Alt.mk true)
+  | .list [.atom "n", t] => (parseTy t).map (Alt.mk false)
+  | _ => none
+
+def parseSlot : Sexp → Option Slot
+  | .list (.atom "v" :: alts) => (alts.mapM parseAlt).map Slot.var
+  | s => (parseAlt s).map Slot.one
+
+def parseSig (s : Sexp) : Option Sig := do
+  let xs ← s.asList?
+  xs.mapM parseSlot
+
+mutual
+def parseVal : Sexp → Option Val
+  | .list [.atom "o", k] => k.asNat?.map Val.obj
+  | .list (.atom "term" :: k :: xs) =>
+    match k.asNat?, parseVals xs with
+    | some k, some xs => some (.term k xs)
+    | _, _ => none
+  | .list (.atom "tuple" :: xs) => (parseVals xs).map Val.tuple
+  | .list (.atom "fset" :: xs) => (parseVals xs).map Val.fset
+  | _ => none
+def parseVals : List Sexp → Option (List Val)
+  | [] => some []
+  | x :: xs =>
+    match parseVal x, parseVals xs with
+    | some t, some ts => some (t :: ts)
+    | _, _ => none
+end
+
+mutual
+def showTy : Ty → String
+  | .any => "any"
+  | .tupB => "tb"
+  | .fsB => "fb"
+  | .cls k => "(c " ++ toString k ++ ")"
+  | .tup xs => "(t" ++ showTys xs ++ ")"
+  | .tupV x => "(tv " ++ showTy x ++ ")"
+  | .fs x => "(f " ++ showTy x ++ ")"
+  | .union xs => "(u" ++ showTys xs ++ ")"
+  | .fn k xs => "(g " ++ toString k ++ showTys xs ++ ")"
+def showTys : List Ty → String
+  | [] => ""
+  | x :: xs => " " ++ showTy x ++ showTys xs
+end
+
+def E : Env := Gen.C16.table.env
+
+def showB (b : Bool) : String := if b then "ok T" else "ok F"
+def showR (r : Res) : String := "ok " ++ r.toString
+def showNats (xs : List Nat) : String := "(" ++ " ".intercalate (xs.map toString) ++ ")"
+def showD : DRes → String
+  | .found i => "(found " ++ toString i ++ ")"
+  | .none => "none"
+  | .raised => "raised"
+
+/-- dispatch + the full matching set + which matching signatures are minimal / least. -/
+def dispatchInfo (sigs : List Sig) (order : List Nat) (types : List Slot) : String :=
+  let r := dispatch E sigs order types
+  let m := matching E sigs types
+  let strict (i j : Nat) : Bool :=   -- sig i strictly more specific than sig j
+    match sigs[i]?, sigs[j]? with
+    | some a, some b => supercedes E a b && !supercedes E b a
+    | _, _ => false
+  let le (i j : Nat) : Bool :=
+    match sigs[i]?, sigs[j]? with
+    | some a, some b => supercedes E a b
+    | _, _ => false
+  let minimal := m.filter fun i => !(m.any fun j => strict j i)
+  let least := m.filter fun i => m.all fun j => le i j
+  "ok " ++ showD r ++ " " ++ showNats m ++ " " ++ showNats minimal ++ " " ++ showNats least
+
+/--
+  C16 sub A B | subc A B | sube A B      deep_issubclass (kf / repaired / three-valued)
+  C16 slot S1 S2                         issubclass between signature elements
+  C16 sup SIG SIG | cons SIG SIG         conflict.supercedes / consistent
+  C16 match (SLOT…) SIG                  does the signature accept the types
+  C16 dispatch D (SLOT…)                 generated dispatcher #D, its recorded ordering
+  C16 dispatcho D (ORDER…) (SLOT…)       same with an explicit ordering (indices)
+  C16 deeptype VAL
+  C16 ntab                               number of generated dispatchers
+-/
 def handle (args : List Sexp) : String :=
   match args with
-  | _ => "err unimplemented"
+  | [.atom "sub", a, b] =>
+    match parseTy a, parseTy b with
+    | some a, some b => showB (sub E true a b)
+    | _, _ => "err bad-args"
+  | [.atom "subc", a, b] =>
+    match parseTy a, parseTy b with
+    | some a, some b => showB (sub E false a b)
+    | _, _ => "err bad-args"
+  | [.atom "sube", a, b] =>
+    match parseTy a, parseTy b with
+    | some a, some b => showR (subE E a b)
+    | _, _ => "err bad-args"
+  | [.atom "slot", a, b] =>
+    match parseSlot a, parseSlot b with
+    | some a, some b => showR (slotSubE E a b)
+    | _, _ => "err bad-args"
+  | [.atom "sup", a, b] =>
+    match parseSig a, parseSig b with
+    | some a, some b => showR (supercedesE E a b)
+    | _, _ => "err bad-args"
+  | [.atom "cons", a, b] =>
+    match parseSig a, parseSig b with
+    | some a, some b => showR (consistentE E a b)
+    | _, _ => "err bad-args"
+  | [.atom "match", ts, s] =>
+    match parseSig ts, parseSig s with
+    | some ts, some s => showR (matchSigE E ts s)
+    | _, _ => "err bad-args"
+  | [.atom "dispatch", d, ts] =>
+    match d.asNat?, parseSig ts with
+    | some d, some ts =>
+      match Gen.C16.dispatchers[d]? with
+      | some dt => dispatchInfo dt.sigs dt.order ts
+      | none => "err no-such-dispatcher"
+    | _, _ => "err bad-args"
+  | [.atom "dispatcho", d, o, ts] =>
+    match d.asNat?, o.asNats?, parseSig ts with
+    | some d, some o, some ts =>
+      match Gen.C16.dispatchers[d]? with
+      | some dt => dispatchInfo dt.sigs o ts
+      | none => "err no-such-dispatcher"
+    | _, _, _ => "err bad-args"
+  | [.atom "deeptype", v] =>
+    match parseVal v with
+    | some v =>
+      match deepType E v with
+      | some t => "ok " ++ showTy t
+      | none => "ok none"
+    | none => "err bad-args"
+  | [.atom "ntab"] => "ok " ++ toString Gen.C16.dispatchers.length
+  | _ => "err bad-request"
 
 end FV.Drv.C16
